@@ -212,10 +212,11 @@ def _opt_expect(words):
 
 
 def validation_vectors(native):
-    """-> {encoding name: [(label, inputs, expected)]}; also cross-checks the native outputs against python's calendar."""
+    """-> ({encoding name: [(label, inputs, expected)]}, problems, notes)"""
     ts = ts_vectors()
     v = {"tp": [], "rt": [], "fp": [], "mono": []}
     problems = []
+    notes = []
     tpout = {}
     for (lab, secs, ns), (_, civ, _) in zip(ts, CIVIL):
         w = native["TP"].get(lab)
@@ -227,7 +228,9 @@ def validation_vectors(native):
         else:
             vals = [int(x) for x in w]
             if civ is not None and tuple(vals[:6]) != civ:
-                problems.append("native to_parts(%s) = %s differs from the civil date %s the vector was built from" % (lab, vals, civ))
+                # not a translator problem: the code under test disagrees with the civil calendar. The obligations
+                # (round trip, ranges, monotonicity) are what reports this; here it is only noted.
+                notes.append("native to_parts(%s) = %s differs from the civil date %s the vector was built from" % (lab, vals, civ))
             tpout[lab] = vals
             v["tp"].append((lab, {"secs": secs, "nanos": ns}, {"panic": False, "out": dict(zip(PARTS, vals))}))
         w = native["RT"].get(lab)
@@ -248,7 +251,7 @@ def validation_vectors(native):
             out.update({n + "2": x for n, x in zip(PARTS, tpout[b])})
             v["mono"].append(("%s/%s" % (a, b), {"secs1": byl[a][0], "nanos1": byl[a][1], "secs2": byl[b][0], "nanos2": byl[b][1]},
                               {"panic": False, "out": out}))
-    return v, problems
+    return v, problems, notes
 
 
 # ---------------------------------------------------------------- properties
